@@ -65,14 +65,8 @@ class PoolModel:
         eng = self.eng
         eng.event("starmap", getattr(f, "qualname", None) or repr(f))
         if isinstance(xs, SymSeq):
-            def elem(i, xs=xs):
-                args = xs.elem(i)
-                n0 = len(eng.taken)
-                v = eng.call(f, list(args), {})
-                if len(eng.taken) != n0:
-                    raise Unsupported("starmap over a symbolic sequence needs a fork-free contract for the mapped function")
-                return v
-            return SymSeq(xs.length, elem, name=f"starmap({xs.name})")
+            i0, v = eng.eval_template(xs, lambda args: eng.call(f, list(args), {}))
+            return SymSeq(xs.length, None, name=f"starmap({xs.name})", i0=i0, template=v)
         return [eng.call(f, list(eng.iterate(x)), {}) for x in eng.iterate(xs)]
 
     def map(self, f, xs):
